@@ -139,6 +139,28 @@ AVOID6 = {
  'C19': 'an immediate-register cache in the x86_64 JIT gradient assembler',
  'C20': 'the lowering of min / max with an infinite immediate in the JIT',
 }
+AVOID7 = {
+ 'C01': 'the reference meaning of round in UnaryOpcode::eval (fidget-core/src/context/op.rs)',
+ 'C02': 'the tie arm of build_min in the x86_64 JIT point assembler',
+ 'C03': 'the single-value test of Interval::mix',
+ 'C04': 'Interval::max_choice on touching ranges',
+ 'C05': 'the rounding constant of build_round in the x86_64 JIT gradient assembler',
+ 'C06': 'the lift of the 3x3 view matrix to 4x4 in the 2D worker (fidget-raster/src/pixel.rs)',
+ 'C07': 'TileSizesRef::new (trimming the tile list to the image size)',
+ 'C08': 'LeafHermiteData::merge (invalid-QEF marker)',
+ 'C09': 'CancelToken::cancel',
+ 'C10': 'the same-operand-in-memory arm of RegisterAllocator::op_reg_reg',
+ 'C11': 'the same-operand-in-memory arm of RegisterAllocator::op_reg_reg',
+ 'C12': 'the frame part of the cache key in Context::import',
+ 'C13': 'idempotence shortcuts in Context::min / Context::max',
+ 'C14': 'the divide in impl Transformable for Interval',
+ 'C15': 'RegOp::visit_regs',
+ 'C16': 'multiplication by -1 in Context::mul',
+ 'C17': 'the variable resolver of the scripting engine (fidget-rhai/src/lib.rs)',
+ 'C18': 'View3::translate',
+ 'C19': 'multiplication by -1 in Context::mul',
+ 'C20': 'the order of the zero and NaN tests in Interval::or_choice',
+}
 for pid in (ids or props):
     p = props[pid]
     avoid = ''
@@ -174,6 +196,15 @@ for pid in (ids or props):
                  "(an operand equal to a particular constant, two constants equal to each other, a size equal to a multiple of another, an index landing exactly on a boundary, a value exactly representable / exactly at a rounding boundary), "
                  "a particular structural coincidence in the expression (the same sub-expression in two particular positions, a particular chain of three specific operations, a particular register assignment), "
                  "or a particular sequence of three or more specific calls. Before editing, list for yourself at least five candidate sites spread over different anchor files / mechanisms and choose the one with the narrowest natural trigger that still plausibly occurs in real use. "
+                 "The existing tests must still pass.\n")
+    if 'seed8' in root:
+        avoid = (f"\nSeven earlier experiments already used (1) {AVOID[pid]}, (2) {AVOID2[pid]}, (3) {AVOID3[pid]}, (4) {AVOID4[pid]}, (5) {AVOID5[pid]}, (6) {AVOID6[pid]} and (7) {AVOID7[pid]}. Pick a mechanism different from all seven, in a different function. "
+                 "The verification suite you are up against generates random programs, inputs, configurations and call histories (including special values, exact coincidences and objects with a history) and compares the library with reference models. "
+                 "Like every such suite it has to TOLERATE what the property statement itself concedes: read the statement for its stated exceptions and tolerances (NaN need only match NaN, the sign of a zero, a few ulps, 'within rounding distance of zero', 'within floating-point tolerance', 'within the sampling resolution', excluded loci and excluded inputs, 'may fail loudly', conservative NaN results) and for behaviour it leaves open. "
+                 "Aim at the EDGE of those concessions: a change whose wrong behaviour looks superficially like something the statement tolerates or excludes but is in fact outside the concession "
+                 "(a wrong finite value where only a NaN payload or a zero sign may differ; an error of 8 ulps or of 1e-3 where a few ulps or 1e-6 are conceded; a result that is wrong only next to, not on, an excluded locus; a NaN / conservative result returned where a definite one is required, or the reverse; "
+                 "a failure that is loud where it must be silent or silent where it must be loud), so that a checker with sloppy tolerances or over-broad exclusions stays silent. "
+                 "Before editing, list for yourself at least five candidate sites spread over different anchor files / mechanisms and choose the one whose effect is closest to a conceded difference while still clearly violating the statement. "
                  "The existing tests must still pass.\n")
     open(f'{root}/prompt_{pid}.txt', 'w').write(f"""You are helping to evaluate a verification suite for the Rust library mkeeter/fidget (implicit-surface math expressions compiled to tapes, evaluated by an interpreter VM or an x86_64 JIT, rendered or meshed). You do NOT see the verification suite. Your job is to write ONE realistic, subtle breaking change to the library.
 
